@@ -66,12 +66,29 @@ where
 
 def showIds (l : List Nat) : String := if l.isEmpty then "-" else showNatList l
 
-def step (σ : Flow) (line : String) : Flow × String :=
+def allFields : List Field :=
+  [.reqMethod, .reqScheme, .reqHost, .reqPath, .reqVersion, .reqPort, .reqHeaders, .reqTrailers, .reqContent,
+   .respReason, .respVersion, .respCode, .respHeaders, .respTrailers, .respContent, .marked, .comment]
+
+def showFVal : FVal → String
+  | .orig => "o"
+  | .scalar i => "s" ++ toString i
+  | .pairs l => "p" ++ ".".intercalate (l.map toString)
+
+def showFields (fs : Fields) : String := ",".intercalate (allFields.map fun f => showFVal (fs f))
+
+structure DState where
+  flow : Flow
+  fields : Fields
+
+def step (st : DState) (line : String) : DState × String :=
+  let σ := st.flow
   match fields line with
   | ["reset", b] =>
-    if b = "1" then (⟨[], some []⟩, "ok") else if b = "0" then (⟨[], none⟩, "ok") else (σ, "bad-op")
+    if b = "1" then (⟨⟨[], some []⟩, fun _ => .orig⟩, "ok") else if b = "0" then (⟨⟨[], none⟩, fun _ => .orig⟩, "ok")
+    else (st, "bad-op")
   | "put" :: r :: p :: toks =>
-    if (r ≠ "0" ∧ r ≠ "1") ∨ (p ≠ "0" ∧ p ≠ "1" ∧ p ≠ "2") then (σ, "bad-op") else
+    if (r ≠ "0" ∧ r ≠ "1") ∨ (p ≠ "0" ∧ p ≠ "1" ∧ p ≠ "2") then (st, "bad-op") else
     let k : Kind := ⟨r = "1", p ≠ "0"⟩
     let doc : Option Doc :=
       match toks with
@@ -80,13 +97,15 @@ def step (σ : Flow) (line : String) : Flow × String :=
       | ["."] => some (.obj [])
       | _ => (parseTops toks []).map Doc.obj
     match doc with
-    | none => (σ, "bad-op")
+    | none => (st, "bad-op")
     | some d =>
-      let (st, σ') := put k σ d
-      let s := match st with | .ok => "ok" | .refused400 => "refused" | .error500 => "error"
-      (σ', s ++ " " ++ showIds σ'.cur ++ " " ++ (match σ'.backup with | none => "none" | some b => showIds b))
-  | _ => (σ, "bad-op")
+      let (status, σ') := put k σ d
+      let (_, fs') := putF k st.fields d
+      let s := match status with | .ok => "ok" | .refused400 => "refused" | .error500 => "error"
+      (⟨σ', fs'⟩, s ++ " " ++ showIds σ'.cur ++ " " ++ (match σ'.backup with | none => "none" | some b => showIds b)
+        ++ " " ++ showFields fs')
+  | _ => (st, "bad-op")
 
 end C47Driver
 
-def main : IO Unit := runState C47Driver.step (⟨[], none⟩ : Flow)
+def main : IO Unit := runState C47Driver.step (⟨⟨[], none⟩, fun _ => .orig⟩ : C47Driver.DState)
